@@ -17,6 +17,7 @@ from harness import wholerun as wr
 from harness.common import zmatvec
 
 PID = 'C01'
+BOUNDS = {'quick': dict(M='<=3', n='<=3', parallel_steps='1..3', levels='1..3', maxiter='<=5', configurations=27, restol=1e-3, dt=0.25), 'thorough': dict(M='<=3', n='<=3 (3 only single-step single-level)', parallel_steps='1..3', levels='1..3', maxiter='<=4', configurations='<=240 sampled by VERIF_SEED')}
 
 
 def describe(rep):
